@@ -71,7 +71,7 @@ func TestC08Quarantine(t *testing.T) {
 		w := lstore.NewWorld(t, cfg, nil, rapid.Uint64().Draw(t, "hashInit"))
 		defer w.Close()
 		h := lstore.NewHist(t, w, c, lstore.HistOpts{Holds: false, Syncers: persistent})
-		detections, midBlock, inflightIntoQuarantined, newerChecked, olderChecked := 0, 0, 0, 0, 0
+		detections, midBlock, inflightIntoQuarantined, newerChecked, olderChecked, overlapChecked := 0, 0, 0, 0, 0, 0
 
 		corruptAndDetect := func(t *rapid.T) {
 			// Pick a readable object of size >= 2 and find where it is served from.
@@ -172,9 +172,73 @@ func TestC08Quarantine(t *testing.T) {
 			}
 			oldestLive := w.Live[0].Abs
 			newestLive := w.Live[len(w.Live)-1].Abs
-			// Detection.
+			// Detection. In a third of the flat CAS cases a second client's
+			// FindMissing overlaps with it: its first scan precedes the
+			// detection, its second (refreshing) scan follows it.
 			allocFailsBefore := w.St.Alloc.NewBlockFailures
-			r := w.Get(victim.o, victim.inst)
+			var r lstore.ReadResult
+			var ofmItems []lstore.ObjInst
+			var ofmFlagged []bool
+			var ofmAbs []int
+			var ofmPresent []bool
+			ofmOverlapped := false
+			var parents []placed
+			if !cfg.Hierarchical && !cfg.Mutable {
+				for _, p := range before {
+					if p.abs > victim.abs && p.o.Data != nil {
+						parents = append(parents, p)
+					}
+				}
+			}
+			if len(parents) > 0 && rapid.IntRange(0, 2).Draw(t, "overlapFindMissing") == 0 {
+				parent := parents[rapid.IntRange(0, len(parents)-1).Draw(t, "overlapParent")]
+				for _, p := range before {
+					if len(ofmItems) >= 6 {
+						break
+					}
+					if p.o == victim.o && p.inst == victim.inst {
+						continue // checking it would itself be a detecting read
+					}
+					l, ok := locate(w, p.o, p.inst)
+					if !ok {
+						continue
+					}
+					w.St.Lock.RLock()
+					_, needsRefresh := w.St.LBM.Get(l)
+					w.St.Lock.RUnlock()
+					ofmItems = append(ofmItems, lstore.ObjInst{Obj: p.o, Instance: p.inst})
+					ofmFlagged = append(ofmFlagged, needsRefresh)
+					ofmAbs = append(ofmAbs, p.abs)
+				}
+				if len(ofmItems) > 0 {
+					c.Add("overlapFM", parent.o.ID, parent.inst, len(ofmItems))
+					var err error
+					victimGone := false
+					ofmPresent, err, ofmOverlapped = w.OverlappedFindMissing(parent.o, parent.inst, ofmItems, func() {
+						// The composite read's own refresh may have rotated
+						// the victim's block out.
+						if l2, ok := locate(w, victim.o, victim.inst); !ok || l2.BlockIndex >= len(w.Live) || w.Live[l2.BlockIndex].Abs != victim.abs || l2.OffsetBytes != loc.OffsetBytes ||
+							string(w.St.Media.Data.Peek(off, len(pattern))) != string(pattern) {
+							victimGone = true
+							return
+						}
+						r = w.Get(victim.o, victim.inst)
+					})
+					if err != nil {
+						ofmPresent = nil
+					}
+					if victimGone {
+						undo()
+						w.Corrupt = false
+						w.History = append(w.History, "  (victim moved or evicted before detection: corruption is unreachable)")
+						return
+					}
+				} else {
+					r = w.Get(victim.o, victim.inst)
+				}
+			} else {
+				r = w.Get(victim.o, victim.inst)
+			}
 			detectedDespiteEnvError := false
 			if !r.Found && w.St.Alloc.NewBlockFailures != allocFailsBefore {
 				msgs := w.St.ErrLog.Take()
@@ -220,6 +284,22 @@ func TestC08Quarantine(t *testing.T) {
 			for _, u := range w.Inflight() {
 				if u.Block != nil && u.Block.Abs <= victim.abs {
 					inflightIntoQuarantined++
+				}
+			}
+			// The overlapping existence check decided about the objects that
+			// needed a refresh only after the detection (second scan): none
+			// of those living in a quarantined block may be reported present.
+			if ofmOverlapped && ofmPresent != nil {
+				for i, it := range ofmItems {
+					if ofmFlagged[i] && ofmAbs[i] <= victim.abs {
+						overlapChecked++
+						if ofmPresent[i] {
+							if l, ok := locate(w, it.Obj, it.Instance); ok && l.BlockIndex < len(w.Live) && w.Live[l.BlockIndex].Abs > victim.abs {
+								continue // visible through a newer copy
+							}
+							t.Fatalf("C08: a FindMissing whose refreshing scan ran after the detection reports object %d (inst %q) present although it lived in quarantined block abs#%d (corruption detected in abs#%d)\n%s", it.Obj.ID, it.Instance, ofmAbs[i], victim.abs, w.Render())
+						}
+					}
 				}
 			}
 			// From this moment: nothing in the same or an older block is
@@ -330,6 +410,7 @@ func TestC08Quarantine(t *testing.T) {
 		c.ClassIf(inflightIntoQuarantined > 0, "upload_in_flight_into_quarantined_block")
 		c.ClassIf(newerChecked > 0, "newer_objects_checked")
 		c.ClassIf(olderChecked > 0, "older_objects_checked")
+		c.ClassIf(overlapChecked > 0, "findmissing_overlapping_detection_checked")
 		c.ClassIf(cfg.Mutable, "ac_policy")
 		c.ClassIf(cfg.Hierarchical, "hierarchical")
 		if midBlock > 0 && (inflightIntoQuarantined > 0 || (newerChecked > 0 && olderChecked > 0)) {
